@@ -24,12 +24,31 @@ TS = [False, False, False, True, True]
 ET_NAMES = ["directed", "bidirected", "undirected", "circle", "all"]      # index = etype code of the model
 LAYER_KEYS = {"directed": "D", "bidirected": "B", "undirected": "U", "circle": "C"}
 OP_ADD, OP_ADDS, OP_REM, OP_REMS, OP_ORIENT, OP_CTOR, OP_ORIENTLAG = range(7)   # ORIENTLAG: orient(u, v) with u LATER than v
+# harness-only entry points, mapped onto model ops by encode():
+#   ADD_ATTR / ADDS_ATTR : add_edge(u, v, et, weight=1) / add_edges_from(es, et, weight=1)          -> AddEdge / AddEdges
+#   UPD_LIST             : update(edges=<container of pairs>, edge_type=et)                         -> AddEdges
+#   UPD_LIST_NODES       : update(edges=<container>, nodes=<all nodes>, edge_type=et)               -> AddEdges
+#   UPD_NODES            : update(nodes=<all nodes>)                                                -> no edge change, must not raise
+#   UPD_GRAPH            : update(edges=<networkx graph holding the pairs>, edge_type=et); only as LAST op of a history:
+#                          accepted outcomes = raises with unchanged edge sets, or the guarded bulk insertion (AddEdges)
+OP_ADD_ATTR, OP_ADDS_ATTR, OP_UPD_LIST, OP_UPD_LIST_NODES, OP_UPD_NODES, OP_UPD_GRAPH = range(7, 13)
+MODEL_OP = {OP_ADD_ATTR: OP_ADD, OP_ADDS_ATTR: OP_ADDS, OP_UPD_LIST: OP_ADDS, OP_UPD_LIST_NODES: OP_ADDS, OP_UPD_GRAPH: OP_ADDS}
+UPD_OPS = (OP_UPD_LIST, OP_UPD_LIST_NODES, OP_UPD_NODES, OP_UPD_GRAPH)
+
+
+def model_op(o):
+    if o[0] == OP_UPD_NODES:
+        return [OP_REMS, [], 0]
+    return [MODEL_OP.get(o[0], o[0])] + list(o[1:])
 
 RULE = ("histories of add_edge / add_edges_from (1-3 elements, also self-conflicting) / remove_edge / remove_edges_from / "
         "orient_uncertain_edge / constructor calls on the five classes; every op followed by all layers' edge sets, "
         "raised-or-not, is_valid_mec_graph, a direct check of the pair invariant on the real graph and (after a raise) "
         "snapshot equality with the pre-state. distinct by (class, op list); non-trivial = some op raised and some op "
-        "changed the graph. Alias stream: two objects built from the SAME constructor argument objects (networkx graph per layer / "
+        "changed the graph. Entry points: add_edge / add_edges_from also with keyword attributes, MixedEdgeGraph.update(edges=list|"
+        "tuple|one-shot iterator|dict-keys, nodes=..., edge_type=...) = guarded bulk add, update(nodes=...) = no edge change, "
+        "update(edges=<networkx graph>) as last op: accepted = raises with unchanged edge sets or the guarded insertion, never a "
+        "contradictory graph; a stream with identity-hashed label objects. Alias stream: two objects built from the SAME constructor argument objects (networkx graph per layer / "
         "dict-of-dicts / edge lists), ops on either, both objects and the argument objects observed after every op; bulk list "
         "arguments snapshotted; explicitly empty and duplicate-element batches. Plus the generated-table case: 640+640 guard cells, 4x128 orient cells, 80 lagged-pair orient cells "
         "(both argument orders w.r.t. time), 5x64 mec cells.")
@@ -87,6 +106,11 @@ def alphabet(cls, nodes, bulk_max=2):
         for k in range(1, bulk_max + 1):
             for es in itertools.product(ordered, repeat=k):
                 ops.append([OP_ADDS, [list(e) for e in es], et])
+        if et != 4:
+            for a, b in ordered:
+                ops.append([OP_ADD_ATTR, a, b, et])                  # keyword-attribute forms (same guard expected)
+            ops.append([OP_ADDS_ATTR, [list(ordered[0]), list(ordered[-1])], et])
+            ops.append([OP_UPD_LIST, [list(ordered[0])], et])        # update(edges=[...], edge_type=...) = guarded bulk add
         ops.append([OP_ADDS, [], et])                                # boundary: explicitly empty batches
         ops.append([OP_REMS, [], et])
         ops.append([OP_REMS, [list(ordered[0]), list(ordered[0])], et])   # the same edge listed twice
@@ -117,13 +141,15 @@ def random_op(rng, cls, n):
     r = rng.random()
     et = rng.choice(ets[:-1]) if rng.random() < 0.985 else ets[-1]
     if r < 0.40:
+        if et != 4 and rng.random() < 0.2:
+            return [OP_ADD_ATTR] + pair() + [et]
         return [OP_ADD] + pair() + [et]
     if r < 0.60:
         k = rng.randint(1, 3)
         es = [pair() for _ in range(k)]
         if k > 1 and rng.random() < 0.4:
             es[-1] = [es[0][1], es[0][0]]          # self-conflicting candidates
-        return [OP_ADDS, es, et]
+        return [rng.choice([OP_ADDS, OP_ADDS, OP_ADDS_ATTR, OP_UPD_LIST]) if et != 4 else OP_ADDS, es, et]
     if r < 0.73:
         return [OP_REM] + pair() + [et]
     if r < 0.78:
@@ -155,10 +181,29 @@ def gen_cases(tier, rng):
     # three nodes: every single op after every single op involving the shared node (interference across pairs)
     for cls in range(5):
         al3 = [o for o in alphabet(cls, [0, 1, 2], bulk_max=1)]
-        step = 1 if tier == "thorough" else 7
+        step = 1 if tier == "thorough" else 15
         seqs = list(itertools.product(al3, repeat=2))
         for seq in seqs[::step]:
             yield {"kind": "hist2n3", "cls": cls, "ops": list(seq)}
+    # MixedEdgeGraph.update is a public mutation entry point the five classes inherit: every form, after every single-op
+    # prefix, with every container type for the bulk arguments; the networkx-graph form only as last op (see OP_UPD_GRAPH)
+    for cls in range(5):
+        pre = [[]] + [[o] for o in alphabet(cls, [0, 1], bulk_max=1) if o[0] in (OP_ADD, OP_ORIENT) and o[-1] != 4]
+        ets = et_codes(cls)[:-1]
+        batches = [[[0, 1]], [[1, 0]], [[0, 1], [1, 0]], [[1, 0], [1, 0]], []]
+        finals = [[k, es, et] for k in (OP_UPD_LIST, OP_UPD_LIST_NODES, OP_UPD_GRAPH, OP_ADDS_ATTR) for es in batches for et in ets]
+        finals.append([OP_UPD_NODES])
+        n = 0
+        for pr in pre:
+            for fin in finals:
+                n += 1
+                yield {"kind": "update", "cls": cls, "ops": pr + [fin], "cont": ["list", "tuple", "iter", "dictkeys"][n % 4]}
+    # identity-hashed label objects (the bulk add validates on self.copy(): a copy that re-creates labels would split nodes)
+    for cls in range(5):
+        for _ in range(30 if tier == "quick" else 200):
+            ops = [random_op(rng, cls, 3) for _ in range(12)]
+            yield {"kind": "rand_obj", "cls": cls, "_lab": "obj", "ops": [o for o in ops if o[0] != OP_CTOR or rng.random() < 0.3],
+                   "cont": rng.choice(["list", "tuple", "iter"])}
     # ARGUMENT INTEGRITY / ALIASING: two objects P, Q built from the SAME constructor argument objects (networkx graph objects
     # per layer, dict-of-dicts, edge lists); every op goes to P or to Q; both objects and the argument objects are observed after
     # every op.  No "all" insertions here (known finding, exercised elsewhere).
@@ -212,8 +257,8 @@ def encode(case):
     if case["kind"] == "table":
         return [1]
     if case["kind"].startswith("alias"):
-        return [2, case["cls"], case["ctor"], [[tgt, o] for tgt, o in case["ops"]]]
-    return [0, case["cls"], case["ops"]]
+        return [2, case["cls"], case["ctor"], [[tgt, model_op(o)] for tgt, o in case["ops"]]]
+    return [0, case["cls"], [model_op(o) for o in case["ops"]]]
 
 
 def decode(case, v):
@@ -292,6 +337,20 @@ def observe(G, cls, inv):
     return out
 
 
+_CONT = ["list"]     # container type used for bulk arguments of the attr / update entry points (case["cont"])
+
+
+def container(items):
+    c = _CONT[0]
+    if c == "tuple":
+        return tuple(items)
+    if c == "iter":
+        return iter(items)              # a one-shot iterator: a wrapper that walks the batch twice sees nothing the second time
+    if c == "dictkeys":
+        return dict.fromkeys(items).keys()
+    return list(items)
+
+
 _ARG_MUTATED = []   # filled when a call changed a mutable argument (bulk list); read by run_history after every op
 
 
@@ -323,6 +382,21 @@ def apply_op(G, cls, nd, o):
                 _ARG_MUTATED.append("remove_edges_from")
     elif k in (OP_ORIENT, OP_ORIENTLAG):
         G.orient_uncertain_edge(nd(o[1]), nd(o[2]))
+    elif k == OP_ADD_ATTR:
+        G.add_edge(nd(o[1]), nd(o[2]), ET_NAMES[o[3]], weight=1)
+    elif k == OP_ADDS_ATTR:
+        G.add_edges_from(container([(nd(a), nd(b)) for a, b in o[1]]), ET_NAMES[o[2]], weight=1)
+    elif k == OP_UPD_LIST:
+        G.update(edges=container([(nd(a), nd(b)) for a, b in o[1]]), edge_type=ET_NAMES[o[2]])
+    elif k == OP_UPD_LIST_NODES:
+        G.update(edges=container([(nd(a), nd(b)) for a, b in o[1]]), nodes=container([nd(v) for v in range(3)]),
+                 edge_type=ET_NAMES[o[2]])
+    elif k == OP_UPD_NODES:
+        G.update(nodes=container([nd(v) for v in range(2)]))
+    elif k == OP_UPD_GRAPH:
+        import networkx as nx
+        H = (nx.DiGraph if o[2] in (0, 3) else nx.Graph)([(nd(a), nd(b)) for a, b in o[1]])
+        G.update(edges=H, edge_type=ET_NAMES[o[2]])
     elif k == OP_CTOR:
         return construct(cls, nd, o[1], o[2], o[3], o[4])
     return G
@@ -332,6 +406,7 @@ def run_history(case):
     from pywhy_graphs.algorithms.generic import is_valid_mec_graph
     cls = case["cls"]
     nd, inv = node_maps(cls, case)
+    _CONT[0] = case.get("cont", "list")
     G = _classes()[cls]()
     steps = []
     for o in case["ops"]:
@@ -648,13 +723,24 @@ def compare(case, impl, model, ignore_inv=False):
             return "invariant-broken"
         # (classification only) once a contradictory state exists, a raise half-way through orient_uncertain_edge is a
         # consequence of it; the as-is model must still reproduce the resulting edge sets exactly
-        if a["raised"] and not a.get("atomic", True) and not (ignore_inv and broken):
+        # update() adds the nodes before it validates the edges: for these entry points "unchanged" is judged on the edge sets
+        if a["raised"] and not a.get("atomic", True) and not (ignore_inv and broken) and o[0] not in UPD_OPS:
             return "raise-not-atomic"
         broken = broken or not a["inv"]
+        if o[0] == OP_UPD_GRAPH and a["raised"]:
+            # accepted outcome 1: raises (on HEAD: the Graph-like branch is unsupported) and leaves every edge set as it was
+            prev = impl["steps"][i - 1] if i else {"D": [], "B": [], "U": [], "C": []}
+            if any(a[k] != prev[k] for k in "DBUC"):
+                return "update-graph-raise-not-atomic"
+            if i != len(case["ops"]) - 1:
+                return "harness-update-graph-not-last"
+            continue
         for k in "DBUC":
             if a[k] != m[k]:
                 return "edges"
-        if o[0] not in (OP_REM, OP_REMS) and a["raised"] != m["raised"]:
+        if o[0] == OP_UPD_NODES and a["raised"]:
+            return "raised"
+        if o[0] not in (OP_REM, OP_REMS, OP_UPD_NODES) and a["raised"] != m["raised"]:
             return "raised"
         if a["raised"] and a["exc"] not in ("RuntimeError", "NetworkXError"):
             return "exception-class"
@@ -765,7 +851,7 @@ def shrink(case):
     for i in range(len(ops) - 1, -1, -1):
         yield dict(case, ops=ops[:i] + ops[i + 1:], kind="shrunk")
     for i, o in enumerate(ops):
-        if o[0] in (OP_ADDS, OP_REMS) and len(o[1]) > 1:
+        if o[0] in (OP_ADDS, OP_REMS, OP_ADDS_ATTR, OP_UPD_LIST, OP_UPD_LIST_NODES, OP_UPD_GRAPH) and len(o[1]) > 1:
             for j in range(len(o[1])):
                 yield dict(case, ops=ops[:i] + [[o[0], o[1][:j] + o[1][j + 1:], o[2]]] + ops[i + 1:], kind="shrunk")
         if o[0] == OP_CTOR:
